@@ -8,7 +8,7 @@
       Err             = AssertionError;   Fuel = the explicit fuel ran out (excluded in the statements)
     [ns] = g_resolution_no_shadow: [true] is the repaired loop (current tree), [false] the pinned loop (D6). *)
 From Coq Require Import ZArith NArith List Bool.
-From Pi2 Require Import Taut.Model Taut.Stages Taut.Sets Taut.Resolution Taut.Complete.
+From Pi2 Require Import Taut.Model Taut.Stages Taut.Sets Taut.Resolution Taut.Complete Taut.Termination.
 Import ListNotations.
 
 (* ------------------------------------------------------------------------------------------ *)
@@ -146,6 +146,21 @@ Example C09_decide_nonvacuous :
   decide true 1000 (FEquiv (FVar 0) (FVar 1)) = Ok None /\
   decide true 1000 (FAnd (FEquiv (FVar 0) (FVar 1)) (FEquiv (FVar 0) (FNeg (FVar 1)))) = Ok (Some false).
 Proof. repeat split; vm_compute; reflexivity. Qed.
+
+(** enough fuel exists (explicit bound [enough_fuel f]: CNF height bound for to_cnf, (2^|literals|+1)^2
+    for the loop), so the out-of-fuel case is impossible from there on *)
+Theorem C09_decide_terminates : forall f fuel, (enough_fuel f <= fuel)%nat -> decide true fuel f <> Fuel.
+Proof. exact decide_terminates. Qed.
+Print Assumptions C09_decide_terminates.
+
+(** unconditional statement of the property (verdict layer): for every formula the repaired procedure,
+    run with enough fuel, returns — and returns `proved` iff tautology, `refuted` iff unsatisfiable,
+    `declines` iff contingent *)
+Theorem C09_decide_total : forall f,
+  exists r, decide true (enough_fuel f) f = Ok r /\
+    (r = Some true <-> tautology f) /\ (r = Some false <-> unsat f) /\ (r = None <-> contingent f).
+Proof. exact decide_total_correct. Qed.
+Print Assumptions C09_decide_total.
 
 (* ------------------------------------------------------------------------------------------ *)
 (** * 5. D6 (pinned loop, g_resolution_no_shadow = false): a tautology gets the verdict "inconclusive" *)
